@@ -220,7 +220,7 @@ pub const STACKS_C11: &[&str] = &["normalize"];
 pub const STACKS_C13: &[&str] = &[
     "fos", "fos_custom", "repeat_skipped", "repeat_failed", "repeat_if", "tee", "or", "fos_repeat_failed", "repeat_failed_tee", "tee_of_fos", "or_of_repeat",
 ];
-pub const STACKS_C12: &[&str] = &["summarize", "repeat_failed_summarize", "repeat_skipped_summarize", "summarize_normalize"];
+pub const STACKS_C12: &[&str] = &["summarize", "repeat_failed_summarize", "repeat_skipped_summarize", "summarize_normalize", "fos_summarize"];
 
 /// Executes one writer-world run: `which` selects the writer stack under test.
 pub fn run_world_c(plan: &Rc<Plan>, which: &str) -> Result<CHistory, String> {
@@ -413,7 +413,7 @@ pub fn run_world_c(plan: &Rc<Plan>, which: &str) -> Result<CHistory, String> {
             let r = drive(&core, &sh, w, comp(), items, &mut |_| {});
             finish!(r, [("left", la), ("right", lb)]);
         }
-        "summarize" | "repeat_failed_summarize" | "repeat_skipped_summarize" | "summarize_normalize" => {
+        "summarize" | "repeat_failed_summarize" | "repeat_skipped_summarize" | "summarize_normalize" | "fos_summarize" => {
             let (a, la) = Rec::new(&sh, [0; 6]);
             let mut grab = |w: &writer::Summarize<Rec>, numbers: &mut BTreeMap<String, i64>| {
                 let (sc, st) = (*w.scenarios_stats(), *w.steps_stats());
@@ -441,6 +441,14 @@ pub fn run_world_c(plan: &Rc<Plan>, which: &str) -> Result<CHistory, String> {
                 }
                 "repeat_failed_summarize" => {
                     let w = a.summarized().repeat_failed();
+                    let r = drive(&core, &sh, w, e, items, &mut |w| {
+                        stats_of!(w, "");
+                        grab(w, &mut numbers);
+                    });
+                    finish!(r, [("out", la)]);
+                }
+                "fos_summarize" => {
+                    let w = a.summarized().fail_on_skipped();
                     let r = drive(&core, &sh, w, e, items, &mut |w| {
                         stats_of!(w, "");
                         grab(w, &mut numbers);
@@ -949,6 +957,64 @@ pub fn fold_counts(stream: &[Ev]) -> Counts {
     c
 }
 
+/// Deviation of the known finding "hook failed in an attempt with retries left":
+/// (extra failed scenarios, extra retried scenarios). Such an attempt (failed hook, no failed
+/// step, retries left) is counted as a failed scenario, and - because that overwrites the
+/// per-scenario "was retried" memory - a later retried step failure of the same scenario is
+/// counted as another retried scenario.
+pub fn known_hook_deviation(stream: &[Ev]) -> (i64, i64) {
+    let upto = stream.iter().position(|e| matches!(e.k, K::RunFinished)).map_or(stream.len(), |p| p + 1);
+    // attempts per scenario in stream order
+    let mut order: Vec<(usize, usize, usize)> = Vec::new();
+    let mut per: BTreeMap<(usize, usize, usize), Vec<(Option<(usize, usize)>, bool, bool, bool)>> = BTreeMap::new();
+    for e in &stream[..upto] {
+        let Some(sk) = e.scenario_key() else { continue };
+        let v = per.entry(sk).or_insert_with(|| {
+            order.push(sk);
+            Vec::new()
+        });
+        if matches!(e.k, K::ScStarted) || v.is_empty() {
+            v.push((e.retries, false, false, false));
+        }
+        let cur = v.last_mut().unwrap();
+        match &e.k {
+            K::HookFailed(..) => cur.1 = true,
+            K::StepFailed { err, .. } => {
+                let left = e.retries.map_or(0, |r| r.1);
+                if left > 0 && !matches!(err, crate::record::ErrK::NotFound) {
+                    cur.2 = true;
+                } else {
+                    cur.3 = true;
+                }
+            }
+            _ => {}
+        }
+    }
+    let (mut d_failed, mut d_retried) = (0i64, 0i64);
+    for sk in order {
+        let mut memory = false;
+        let mut counted = 0i64;
+        let mut any = false;
+        for (ret, hook, step_retried, step_final) in &per[&sk] {
+            let left = ret.map_or(0, |r| r.1);
+            if *step_retried {
+                any = true;
+                if !memory {
+                    counted += 1;
+                }
+                memory = true;
+            }
+            let _ = step_final; // with retries left a final step failure can only be NotFound (fail_on_skipped)
+            if *hook && !*step_retried && left > 0 {
+                d_failed += 1;
+                memory = false;
+            }
+        }
+        d_retried += counted - i64::from(any);
+    }
+    (d_failed, d_retried)
+}
+
 pub fn parse_summary(text: &str) -> Option<BTreeMap<String, i64>> {
     // [Summary]\nN features\n[M rules\n]K scenarios (a passed, b skipped, c failed with d retries)\nS steps (...)\n[e parsing errors][, ][h hook errors]
     let mut m = BTreeMap::new();
@@ -1038,7 +1104,21 @@ pub fn c12(ch: &CHistory, out: &mut Vec<Violation>) {
             out.push(v("C12", "getters-disagree", format!("Stats::{a}_steps() = {}, steps_stats().{a} = {}", n[a], n[b])));
         }
     }
-    if got != want {
+    // Known finding (known_findings.json, C12 hook-failed-in-retried-attempt): a Hook::Failed in an
+    // attempt that is going to be retried and has no failed step makes Summarize count the
+    // scenario as failed although only its last attempt may decide. Exactly that deviation -
+    // nothing else - is reported under its own code, so any other difference is still a violation.
+    let mut want_known = want.clone();
+    let (d_failed, d_retried) = known_hook_deviation(&received);
+    want_known.sc_failed += d_failed;
+    want_known.sc_retried += d_retried;
+    if got != want && d_failed > 0 && got == want_known {
+        out.push(
+            v("C12", "counters-differ-hook-failed-in-retried-attempt", format!(
+                "scenarios.failed = {} but only {} scenario(s) failed in their last attempt: {} attempt(s) with retries left had a failed hook (and no failed step) and were counted as failed scenarios",
+                got.sc_failed, want.sc_failed, want_known.sc_failed - want.sc_failed)),
+        );
+    } else if got != want {
         let mut diffs = Vec::new();
         macro_rules! d {
             ($f:ident) => {
